@@ -115,6 +115,47 @@ def run_overwritten(ctx: Ctx) -> RuleResult:
                         res.finding(f, c, 'the value stored in %s just before (line %d) is overwritten here without having been read: the '
                                     'earlier, conditional value is lost (a missing `else:`?)' % (t2, first.lineno),
                                     construct='overwritten:%s' % t2)
+    # the same for a local name: `if c: x = A` followed by an if/else that assigns x on every arm without reading it (an `elif` that
+    # became `if`): the first, conditional value can never be seen
+    def assigns_without_reading(stmts, name) -> bool:
+        """the block's first mention of `name` is a plain store of it"""
+        for st in stmts:
+            names = [x for x in ast.walk(st) if isinstance(x, ast.Name) and x.id == name]
+            if not names:
+                continue
+            if isinstance(st, ast.Assign) and len(st.targets) == 1 and isinstance(st.targets[0], ast.Name) and st.targets[0].id == name \
+                    and not any(isinstance(x, ast.Name) and x.id == name for x in ast.walk(st.value)):
+                return True
+            if isinstance(st, ast.If) and st.orelse and not any(isinstance(x, ast.Name) and x.id == name for x in ast.walk(st.test)):
+                return assigns_without_reading(st.body, name) and assigns_without_reading(st.orelse, name)
+            return False
+        return False
+    n2 = 0
+    for f in repo.functions.values():
+        if f.module.name.startswith('lark.tools') or isinstance(f.node, ast.Lambda):
+            continue
+        for node in ast.walk(f.node):
+            for field in ('body', 'orelse', 'finalbody'):
+                b = getattr(node, field, None)
+                if not (isinstance(b, list) and b and isinstance(b[0], ast.stmt)):
+                    continue
+                b = core_stmts(b)
+                for i in range(len(b) - 1):
+                    a, c = b[i], b[i + 1]
+                    if not (isinstance(a, ast.If) and not a.orelse and a.body and isinstance(a.body[-1], ast.Assign) and len(a.body[-1].targets) == 1
+                            and isinstance(a.body[-1].targets[0], ast.Name)):
+                        continue
+                    if any(isinstance(x, (ast.Return, ast.Raise, ast.Continue, ast.Break)) for x in a.body):
+                        continue
+                    name = a.body[-1].targets[0].id
+                    n2 += 1
+                    if isinstance(c, ast.If) and c.orelse and not any(isinstance(x, ast.Name) and x.id == name for x in ast.walk(c.test)) \
+                            and assigns_without_reading(c.body, name) and assigns_without_reading(c.orelse, name):
+                        res.ob('%s %s' % (f.module.loc(c), f.qual), 'the conditional value of `%s` can be read before it is assigned again' % name, False)
+                        res.finding(f, c, 'the value given to `%s` under `%s` (line %d) is assigned again on every arm of the following if/else without '
+                                    'having been read: the first case is lost (an `elif` that became `if`?)' % (name, norm(a.test)[:60], a.body[-1].lineno),
+                                    construct='overwritten-local:%s' % name)
+    res.notes.append('%d conditional stores to locals examined' % n2)
     res.require_instances(n, 100, 'item/attribute stores examined')
     return res
 
@@ -482,13 +523,26 @@ def run_guard_same_set(ctx: Ctx) -> RuleResult:
     for f in repo.functions.values():
         if not f.module.name.startswith('lark') or f.module.name.startswith('lark.tools'):
             continue
+        # plain names for one member of a family (column = columns[i]), every definition the same
+        defs_: Dict[str, Set[str]] = {}
+        for a_ in f.body_nodes():
+            if isinstance(a_, ast.Assign) and len(a_.targets) == 1 and isinstance(a_.targets[0], ast.Name):
+                defs_.setdefault(a_.targets[0].id, set()).add(norm(a_.value) if isinstance(a_.value, ast.Subscript) else '<other>')
+            elif isinstance(a_, (ast.AugAssign, ast.For, ast.comprehension)):
+                for y in ast.walk(a_.target):
+                    if isinstance(y, ast.Name):
+                        defs_.setdefault(y.id, set()).add('<other>')
+        member = {k: ast.parse(next(iter(v)), mode='eval').body for k, v in defs_.items() if len(v) == 1 and '<other>' not in v}
+
+        def deref(e: ast.AST) -> ast.AST:
+            return member[e.id] if isinstance(e, ast.Name) and e.id in member else e
         for st in f.body_nodes():
             if not isinstance(st, ast.If):
                 continue
             for c in ast.walk(st.test):
                 if not (isinstance(c, ast.Compare) and len(c.ops) == 1 and isinstance(c.ops[0], ast.NotIn)):
                     continue
-                x, A = norm(c.left), c.comparators[0]
+                x, A = norm(c.left), deref(c.comparators[0])
                 adds = [call for s_ in st.body for call in ast.walk(s_)
                         if isinstance(call, ast.Call) and isinstance(call.func, ast.Attribute) and call.func.attr in ('add', 'append')
                         and call.args and norm(call.args[0]) == x]
@@ -497,16 +551,16 @@ def run_guard_same_set(ctx: Ctx) -> RuleResult:
                 n += 1
                 if not isinstance(A, ast.Subscript):
                     continue
-                fam = [a_ for a_ in adds if isinstance(a_.func.value, ast.Subscript) and norm(a_.func.value.value) == norm(A.value)]
+                fam = [a_ for a_ in adds if isinstance(deref(a_.func.value), ast.Subscript) and norm(deref(a_.func.value).value) == norm(A.value)]
                 if not fam:
                     continue
-                ok = any(norm(a_.func.value) == norm(A) for a_ in fam)
+                ok = any(norm(deref(a_.func.value)) == norm(A) for a_ in fam)
                 n_fam += 1
                 res.ob('%s %s' % (f.module.loc(st), f.qual), '`%s not in %s` guards insertion into that same set' % (x, norm(A)), ok)
                 if not ok:
                     res.finding(f, st, '`%s` is tested for membership in %s but inserted into %s: an element already present in the set added to is '
                                 'inserted again, or one that is only present elsewhere is dropped as a duplicate (lost Earley items = lost derivations)'
-                                % (x, norm(A), norm(fam[0].func.value)), construct='guard-other-set:%s' % norm(A.value))
+                                % (x, norm(A), norm(deref(fam[0].func.value))), construct='guard-other-set:%s' % norm(A.value))
     res.require_instances(n_fam, 2, 'guarded insertions into a member of an indexed family')
     return res
 
